@@ -458,6 +458,9 @@ func (r *caseResult) fail(sig, what string) {
 }
 
 func outcomeCoq(o Outcome) string {
+	if o.O == "accept" && o.K >= all {
+		return "OAcceptAll"
+	}
 	if o.O == "accept" {
 		return "OAccept " + vgen.N(o.K)
 	}
